@@ -95,12 +95,14 @@ def run(ctx):
                   'the result of max is unwrapped: zero replications would panic')
         # R6: the range end is the count parameter; a replica does not depend on it
         cnt_local = None
+        cnt_path = ()
         rng = lp['src'] if lp is not None else {'o': '?'}
         if rng['o'] == 'rvalue' and rng['rv']['r'] == 'aggr' and 'Range' in rng['rv'].get('adt', ''):
             lo, hi = rng['rv']['ops']
             oh = tr.origin(hi)
             if oh['o'] == 'arg':
                 cnt_local = oh['l']
+                cnt_path = tuple(field_path(oh['p']))       # the count may be a field of a parameter (`self.replications`)
             rep.check(lo.get('k') == 'const' and lo.get('int') == '0' and oh['o'] == 'arg', 'R6', 'replica-range',
                       where(b, rng['bb']), 'replicas = 0..<count parameter _%s>' % cnt_local,
                       'the replica index range is not 0..count')
@@ -115,7 +117,10 @@ def run(ctx):
             nuse += 1
             o = tr.origin(dict(pl, k='copy')) if not wr else {'o': '?'}
             if cnt_local is not None and o['o'] == 'arg' and o['l'] == cnt_local:
-                bad.append(bi)
+                up = tuple(field_path(o['p']))
+                k = min(len(up), len(cnt_path))
+                if up[:k] == cnt_path[:k] and (up or not cnt_path):
+                    bad.append(bi)      # the place read is the count, a part of it, or a struct containing it
         rep.check(not bad, 'R6', 'replica-does-not-use-count', where(b, bad[0]) if bad else where(b),
                   'no value inside the replica loop derives from the replication count',
                   'a replica reads the replication count: replica i is no longer the same computation for every count > i')
@@ -170,20 +175,77 @@ def run(ctx):
     _carried(ctx)
 
 
+def _role_of_type(ty):
+    ty = (ty or '').replace('packing::', '')
+    if 'PathBuf' in ty or ty.endswith('Path'):
+        return 'outfile'
+    if ty.startswith('impl ') or 'State' in ty:
+        return 'state'
+    if 'BuildOptimiser' in ty:
+        return 'optimisation'
+    if ty in ('u64', 'usize'):
+        return 'replications'
+    return None
+
+
+def param_roles(f, pf):
+    """{role: (argument index, [field names])} of the pipeline function's parameters by type (not by position: an added flag must
+    not shift them); a parameter of a workspace struct type (`&self` of `struct Run { outfile, replications, optimiser }`)
+    contributes its fields."""
+    role = {}
+    for i in pf.args():
+        ty = pf.local_ty(i)
+        r = _role_of_type(ty)
+        if r is not None:
+            role.setdefault(r, (i - 1, []))
+            continue
+        base = f.norm(ty).lstrip('&').strip()
+        if base.startswith('mut '):
+            base = base[4:]
+        ti = f.types.get(base.split('<')[0]) or {}
+        if ti.get('kind') == 'adt' and ti.get('local') and len(ti.get('variants') or []) == 1:
+            for fld in ti['variants'][0]['fields']:
+                r = _role_of_type(fld['ty'])
+                if r is not None:
+                    role.setdefault(r, (i - 1, [fld['name']]))
+    return role
+
+
+def role_origin(f, t, body_caller, tt, role, pf):
+    """Origin (in the caller) of the value a call site passes for a role: the argument itself, or the field of the struct the
+    argument is / points to."""
+    idx, path = role
+    a = tt['args'][idx]
+    if not path or 'l' not in a:
+        return t.origin(a)
+    base = f.norm(pf.local_ty(idx + 1)).lstrip('&').strip()
+    is_ref = pf.local_ty(idx + 1).startswith('&')
+    if base.startswith('mut '):
+        base = base[4:]
+    ti = f.types.get(base.split('<')[0]) or {}
+    flds = [x['name'] for x in ti['variants'][0]['fields']] if ti.get('variants') else []
+    p = list(a['p']) + (['deref'] if is_ref else [])
+    for nm in path:
+        if nm not in flds:
+            return {'o': '?'}
+        p.append({'f': flds.index(nm), 'n': nm, 'of': base, 'ty': '?'})
+    return t._origin_place(a['l'], p, 0)
+
+
 def _files(ctx, b, tr, ser, final_l):
     rep = ctx.rep
     out_arg = None
-    # the PathBuf parameter
-    for i in b.args():
-        if 'PathBuf' in b.local_ty(i):
-            out_arg = i
+    # the PathBuf parameter, or the PathBuf field of a struct parameter (`self.outfile`)
+    roles = param_roles(ctx.facts, b)
+    if 'outfile' in roles:
+        out_arg = (roles['outfile'][0] + 1, tuple(roles['outfile'][1]))
     exts = {}
     for bi, t in b.calls():
         if call_matches(t, 'Path::with_extension'):
             oo, _ = through(tr, t['args'][0])
             e = tr.origin(t['args'][1])
             ext = e['c'].get('str') if e['o'] == 'const' else None
-            exts[ext] = (bi, oo.get('l') if oo['o'] == 'arg' else None, t['dest']['l'])
+            exts[ext] = (bi, (oo.get('l'), tuple(field_path(oo.get('p', [])))) if oo['o'] == 'arg' else None, t['dest']['l'])
     for ext in ('json', 'svg'):
         okx = ext in exts and exts[ext][1] == out_arg and out_arg is not None
         rep.check(okx, 'R3', 'output-path:%s' % ext, where(b, exts.get(ext, (0,))[0]) if ext in exts else where(b),
@@ -363,28 +425,75 @@ def _carried(ctx):
             continue
         rep.saw(fg)
         n += 1
-        t = Tracer(fg)
         gparam = [i for i in fg.args() if 'WallpaperGroup' in fg.local_ty(i)]
-        roots = {}
-        for bi, tt in fg.calls():
-            for nm in ('Wallpaper::new', 'WyckoffSite::new'):
-                if call_matches(tt, 'wallpaper::' + nm):
-                    o = t.origin(tt['args'][0])
-                    roots[nm] = o.get('l') if o['o'] == 'arg' else None
-        ok = len(gparam) == 1 and roots.get('Wallpaper::new') == gparam[0] and roots.get('WyckoffSite::new') == gparam[0]
-        rep.check(ok, 'R5', 'from_group-uses-one-group:%s' % adt, where(fg), 'Wallpaper::new(group), WyckoffSite::new(group)',
-                  'from_group does not build label and operations from the same group argument: %s' % roots)
-        # initialise receives those
-        ini = [(bi, tt) for bi, tt in fg.calls() if call_matches(tt, '::initialise')]
-        if rep.check(len(ini) == 1, 'R5', 'from_group-calls-initialise:%s' % adt, where(fg), 'one initialise call',
-                     'expected one initialise call', 'undecidable-shape'):
-            tt = ini[0][1]
-            ow, _ = through(t, tt['args'][1])
-            rep.check(ow['o'] == 'call' and call_matches(ow['term'], 'Wallpaper::new'), 'R5',
-                      'initialise-gets-the-label:%s' % adt, where(fg, ini[0][0]), 'wallpaper argument = Wallpaper::new(group)',
-                      'initialise does not receive the Wallpaper built from the group')
+        # by value: the arguments handed to initialise, with WyckoffSite::new opaque and everything else by its definition
+        from ..nest import Nest
+        from ..sym import SYM, sfield
+        nfg = Nest(f, fg, yields=False)
+        ini = [(bi, tt) for bi, tt in nfg.b.calls() if call_matches(tt, '::initialise')]
+        if not rep.check(len(ini) == 1 and len(gparam) == 1, 'R5', 'from_group-calls-initialise:%s' % adt, where(fg),
+                         'one initialise call, one group parameter', 'expected one initialise call and one WallpaperGroup parameter',
+                         'undecidable-shape'):
+            continue
+        ibi = ini[0][0]
+        gname = fg.local_name(gparam[0]) or 'arg%d' % gparam[0]
+        try:
+            sxg, outs = nfg.reach(ibi, opaque=('initialise', 'WyckoffSite::new'))
+        except Exception as ex:      # noqa: BLE001
+            sxg, outs = None, []
+        ok_sites = ok_label = bool(outs) and not sxg.aborted
+        why_s = why_l = 'from_group could not be evaluated up to its initialise call'
+        for o in outs:
+            vals = nfg.arg_values(sxg, o, ibi)
+            wv = [v for v in vals if isinstance(v, tuple) and v[0] == 'struct' and v[1].endswith('wallpaper::Wallpaper')]
+            sv = [v for v in vals if isinstance(v, tuple) and (v[0] == 'seq' or (v[0] == 'struct' and v[1] == '[array]'))]
+            # label: name converted from group.name, family = group.family
+            if len(wv) != 1:
+                ok_label, why_l = False, 'initialise does not receive a Wallpaper value built in from_group'
+            else:
+                nm_v, fam_v = sfield(wv[0], 'name'), sfield(wv[0], 'family')
+                syms = _syms(nm_v)
+                conv = isinstance(nm_v, tuple) and nm_v[0] == 'app' and nm_v[1].rsplit('::', 1)[-1] in \
+                    ('from', 'into', 'to_string', 'to_owned', 'clone', 'new') and len(nm_v[2]) == 1
+                if not (fam_v == SYM(gname + '.family') and syms == {gname + '.name'} and conv):
+                    ok_label, why_l = False, 'the label is name=%s family=%s, not name/family of the group argument' % (
+                        repr(nm_v)[:60], repr(fam_v)[:40])
+            # sites: exactly one element, the result of WyckoffSite::new(group)
+            items = sxg.as_seq(o.st, sv[0]) if len(sv) == 1 else None
+            news = _apps_named(vals, 'WyckoffSite::new')
+            if items is None or len(items) != 1 or len(news) != 1 or news[0][2] != (SYM(gname),) or \
+                    'WyckoffSite::new' not in repr(items[0]):
+                ok_sites, why_s = False, 'the occupied site list is not exactly [WyckoffSite::new(group)?] (%d item(s), %d constructor call(s))' % (
+                    len(items) if items is not None else -1, len(news))
+        rep.check(ok_sites, 'R5', 'from_group-uses-one-group:%s' % adt, where(fg), 'sites = [WyckoffSite::new(group)?] by value',
+                  'from_group does not build label and operations from the same group argument: %s' % why_s)
+        rep.check(ok_label, 'R5', 'initialise-gets-the-label:%s' % adt, where(fg, ibi),
+                  'wallpaper argument = Wallpaper { name: group.name, family: group.family } by value',
+                  'initialise does not receive the Wallpaper built from the group: %s' % why_l)
     rep.floor('R5', 'from_group constructors', n, 2)
     _main(ctx)
+
+
+def _syms(v):
+    out = set()
+    if isinstance(v, tuple):
+        if v and v[0] == 'sym':
+            out.add(v[1])
+        for x in v:
+            if isinstance(x, tuple):
+                out |= _syms(x)
+    return out
+
+
+def _apps_named(v, name):
+    out = []
+    if isinstance(v, (tuple, list)):
+        if isinstance(v, tuple) and v and v[0] == 'app' and isinstance(v[1], str) and v[1].endswith(name):
+            out.append(v)
+        for x in v:
+            if isinstance(x, (tuple, list)):
+                out += _apps_named(x, name)
+    return out
 
 
 def _main(ctx):
@@ -407,31 +516,22 @@ def _main(ctx):
     sites = [(bi, tt) for bi, tt in m.calls() if (callee_name(tt) or '') == pf.path]
     rep.floor('R5', 'calls of the pipeline function in main', len(sites), 5, where(m))
     # parameter roles of the pipeline function by type (not by position: an added flag must not shift them)
-    role = {}
-    for i in pf.args():
-        ty = pf.local_ty(i)
-        if 'PathBuf' in ty or ty.endswith('Path'):
-            role.setdefault('outfile', i - 1)
-        elif ty.startswith('impl ') or 'State' in ty:
-            role.setdefault('state', i - 1)
-        elif 'BuildOptimiser' in ty:
-            role.setdefault('optimisation', i - 1)
-        elif ty == 'u64' or ty == 'usize':
-            role.setdefault('replications', i - 1)
+    role = param_roles(f, pf)
     if not rep.check(set(role) == {'outfile', 'state', 'optimisation', 'replications'}, 'R5', 'pipeline-parameter-roles', where(pf),
                      'outfile/replications/state/optimisation = arguments %s' % role,
                      'cannot identify the pipeline function\'s parameters by type: %s' % role, 'undecidable-shape'):
         return
     for n_arm, (bi, tt) in enumerate(sites):
         args_ = tt['args']
-        a = [args_[role['outfile']], args_[role['replications']], args_[role['state']], args_[role['optimisation']]]
-        o0 = t.origin(a[0])
-        o1 = t.origin(a[1])
-        o3, _ = through(t, a[3])
+        o0 = role_origin(f, t, m, tt, role['outfile'], pf)
+        o1 = role_origin(f, t, m, tt, role['replications'], pf)
+        o3 = role_origin(f, t, m, tt, role['optimisation'], pf)
+        if not role['optimisation'][1]:
+            o3, _ = through(t, args_[role['optimisation'][0]])
         ok0 = field_path(o0.get('p', []))[-1:] == ['outfile']
         ok1 = field_path(o1.get('p', []))[-1:] == ['replications']
         ok3 = field_path(o3.get('p', []))[-1:] == ['optimisation']
-        o2, st = through(t, a[2])
+        o2, st = through(t, args_[role['state'][0]])
         ok2 = o2['o'] == 'call' and call_matches(o2['term'], '::from_group')
         okg = False
         if ok2:
